@@ -707,7 +707,8 @@ def search(ctx, failures):
             sig, why = 'C18:wildcard-crosses-slash', "a wildcard matched '/' (OSC 1.0 matches part by part)"
         else:
             sig, why = 'C18:matcher-misses', 'OSC 1.0 says it matches'
-        if sig not in best or len(p) + len(a) < len(best[sig][0]) + len(best[sig][1]):
+        cost = lambda pp, aa: len(pp) + len(aa) + (10 if '//' in aa or aa == '/' or pp == '/' else 0)
+        if sig not in best or cost(p, a) < cost(best[sig][0], best[sig][1]):
             best[sig] = (p, a, o, want, why)
     for sig, (p, a, o, want, why) in sorted(best.items()):
         found.append(Failure('search', 'incoming address pattern %r vs responder path %r: implementation says %s, OSC 1.0 says %s (%s)' % (
@@ -752,6 +753,28 @@ def search(ctx, failures):
         found.append(Failure('search', 'responder 0 has arg_template [1, 2], responder 1 none; message ["/a", 1] invokes %s instead of [1]: IndexError in '
                                        'OscArgsMatcher aborts the dispatch' % ids(h[2][2]), signature='C18:template-indexerror', found_input=True,
                              theorem='dispatch_exact', replay={'kind': 'history', 'ops': FIXED_HISTORIES[2], 'impl': h[2]}))
+    # correspondence disagreements re-examined against the references written from the property text
+    from oracles import c18_ref
+    extra = []
+    for f in failures:
+        rp = f.replay
+        if rp.get('kind') == 'history':
+            dev = c18_ref.check_history(rp['ops'], rp['impl'], rp['ports'])
+            if dev:
+                extra.append(Failure('search', 'responder history %s: at operation %d %s' % (json.dumps(rp['ops']), dev[0], dev[1]),
+                                     found_input=True, theorem='dispatch_exact / disabled_freed_oneshot_never', replay=rp))
+        elif rp.get('kind') == 'dgram':
+            o, dc = rp['impl'], rp['case']
+            data = bytes.fromhex(dc['hex'])
+            if o['out'] and not c18_ref.bundle_structure_ok(data) and 'C18:F4-oversized-bundle-size' not in seen:
+                extra.append(Failure('search', 'datagram %s has a bundle element size that is negative or reaches past the end, yet %d message(s) were dispatched' % (
+                    dc['hex'], len(o['out'])), found_input=True, theorem='malformed_dispatches_nothing', replay=rp))
+            elif o['raised']:
+                extra.append(Failure('search', 'datagram %s: %s raised into the receiver' % (dc['hex'], o['raised']), found_input=True,
+                                     theorem='receiver_survives', replay=rp))
+        elif rp.get('kind') == 'udp' and not rp['impl'].get('alive', True) and 'C18:F4-negative-bundle-size' not in seen:
+            extra.append(Failure('search', 'UDP datagram %s: the receive thread stops answering' % rp['case']['hex'], found_input=True,
+                                 theorem='receiver_survives', replay=rp))
     # registries
     rh = {'ops': [['sv_add', ['srv', 1], 1, 5], ['sv_add', ['srv', 1], 2, 6], ['sv_remove', ['srv', 1], 1], ['sv_run', 1]], 'removes': {}}
     ro = ctx.impl('c18_registry', {'histories': [rh]})['out'][0]
@@ -759,4 +782,4 @@ def search(ctx, failures):
         found.append(Failure('search', 'ServerAction: add(s, f1); add(s, f2); remove(s, f1); run(s) calls %s instead of [f2]' % ro[3],
                              signature='C18:F5-serveraction-remove', found_input=True, theorem='registry_runs_current_in_order',
                              replay={'kind': 'registry', 'history': rh, 'impl': ro}))
-    return found
+    return found + extra[:3]
